@@ -101,17 +101,17 @@ func dcheck(c caseT, rr *runResult) []verdict {
 	if set := seqOutcomes(c); set != nil {
 		if !set[outcomeKey(rr.Results)] {
 			v := verdict{"sequential-consistency", "no sequential order of the operations returns " + fmt.Sprint(resTexts(rr.Results)), nil}
-			// known finding: a load that meets the mark of an instantiation in progress in another goroutine answers
-			// "not found".  Matched only if (a) that is what the run did and (b) with exactly those answers corrected
-			// the outcome is the outcome of a sequential order.
+			// known finding: a load that meets the mark of an instantiation in progress in another goroutine takes it
+			// for a cached miss (answers "not found", or goes on to a child loader's binding).  Matched only if (a) that
+			// is what the run did and (b) with exactly those answers corrected the outcome is that of a sequential order.
 			fixed := make([][]opRes, len(rr.Results))
 			changed := false
 			for t, th := range rr.Results {
 				fixed[t] = append([]opRes(nil), th...)
 				for i, r := range th {
 					o := c.Prog[t][i]
-					if o.Kind == "Load" && r.Kind == "found" && !r.Found && rr.Overlap[t][i] {
-						if d := w.fileLevel(o.L, o.N); d >= 0 {
+					if o.Kind == "Load" && r.Kind == "found" && rr.Overlap[t][i] {
+						if d := w.fileLevel(o.L, o.N); d >= 0 && !(r.Found && r.Val == fileVid(d, o.N, 0)) {
 							fixed[t][i] = opRes{Kind: "found", Found: true, Val: fileVid(d, o.N, 0)}
 							changed = true
 						}
@@ -120,12 +120,82 @@ func dcheck(c caseT, rr *runResult) []verdict {
 			}
 			if changed && set[outcomeKey(fixed)] {
 				v.tags = []string{"load-during-instantiate"}
-				v.what = "a Load answered 'not found' for a name that has a file, because another goroutine was instantiating it: " + v.what
+				v.what = "a Load did not get the value of a name that has a file, because another goroutine was instantiating it: " + v.what
+			} else {
+				// known finding: LoadEntry reads the ancestors and then the loader itself in separate critical sections.
+				// When the program binds the same name in TWO loaders of one chain, a load can combine "ancestor: nothing
+				// yet" with a later binding of the descendant.  Matched only if every other result, and every result for
+				// a name with one defining loader, is exactly that of a sequential order, and the loads in question
+				// returned a value that the program does bind to that name in that chain.
+				wild := map[[2]int]bool{}
+				for t, th := range rr.Results {
+					for i, r := range th {
+						o := c.Prog[t][i]
+						if o.Kind == "Load" && r.Kind == "found" && r.Found && !singleDefiner(c, w, o.L, o.N) && definedIn(c, w, o.L, o.N, r.Val) {
+							wild[[2]int{t, i}] = true
+						}
+					}
+				}
+				if len(wild) > 0 && (matchesModulo(set, rr.Results, wild) || (changed && matchesModulo(set, fixed, wild))) {
+					v.tags = []string{"shadowed-name-race"}
+					v.what = "a Load combined an ancestor's 'nothing yet' with a later binding in a descendant (the name is bound in two loaders of the chain): " + v.what
+				}
 			}
 			vs = append(vs, v)
 		}
 	}
 	return vs
+}
+
+// definedIn: the program binds value id v to name n in some loader of the chain of l (Define operation or file)
+func definedIn(c caseT, w *world, l, n, v int) bool {
+	in := map[int]bool{}
+	for _, d := range w.chain(l) {
+		in[d] = true
+		if c.Cfg[d].File && v == fileVid(d, n, 0) {
+			for _, f := range c.Cfg[d].Files {
+				if f == n {
+					return true
+				}
+			}
+		}
+	}
+	for _, th := range c.Prog {
+		for _, o := range th {
+			if o.Kind == "Define" && o.N == n && in[o.L] && o.V == v {
+				return true
+			}
+		}
+	}
+	return false
+}
+
+// matchesModulo: some sequential outcome agrees with the results at every position that is not in wild
+func matchesModulo(set map[string]bool, rs [][]opRes, wild map[[2]int]bool) bool {
+	for key := range set {
+		ths := strings.Split(key, "|")
+		ok := len(ths) == len(rs)+1
+		for t := 0; ok && t < len(rs); t++ {
+			parts := strings.Split(ths[t], ";")
+			if len(parts) != len(rs[t])+1 {
+				ok = false
+				break
+			}
+			for i, r := range rs[t] {
+				if wild[[2]int{t, i}] {
+					continue
+				}
+				if parts[i] != strings.TrimSuffix(outcomeKey([][]opRes{{r}}), ";|") {
+					ok = false
+					break
+				}
+			}
+		}
+		if ok {
+			return true
+		}
+	}
+	return false
 }
 
 func singleDefiner(c caseT, w *world, l, n int) bool {
@@ -194,6 +264,7 @@ func corpus() []caseT {
 		{Cfg: f[0], Prog: pr(th(ld(1, 0), hs(1, 0)), th(ld(1, 0), df(1, 0, 0))), Note: "two misses"},
 		{Cfg: f[1], Prog: pr(th(ld(2, 0), ld(2, 0)), th(df(1, 0, 0)), th(df(2, 0, 1))), Note: "define in parent and child"},
 		{Cfg: f[1], Prog: pr(th(ld(2, 0), hs(2, 0)), th(df(1, 0, 0), ld(1, 0)))},
+		{Cfg: f[1], Prog: pr(th(ld(2, 0)), th(hs(2, 0), df(1, 0, 4)), th(hs(1, 0), df(2, 0, 1))), Note: "name bound in parent and child while a load is between the two"},
 		{Cfg: f[2], Prog: pr(th(ld(1, 0)), th(ld(1, 0))), Note: "two loads of a file name"},
 		{Cfg: f[2], Prog: pr(th(ld(1, 0), ld(1, 0)), th(ld(1, 0), ld(1, 0)))},
 		{Cfg: f[2], Prog: pr(th(ld(1, 0)), th(ld(1, 0)), th(ld(1, 0))), Note: "three loads of a file name"},
